@@ -89,6 +89,32 @@ class CallbackMonitor:
         wrapper._pv_wrapped = fn
         return wrapper
 
+    def wrap_handlers(self, computation, agent, cname):
+        """the message handlers themselves (registered in _msg_handlers, declared with @register, or reached by the
+        orchestrator's indirect-call convention _orchestrator_*), so that a handler called directly, without going through
+        on_message, is seen too; nested inside the on_message record when dispatched normally"""
+        names = set()
+        for h in list(getattr(computation, "_msg_handlers", {}).values()):
+            if getattr(h, "__self__", None) is computation and hasattr(h, "__name__"):
+                names.add(h.__name__)
+        for h in getattr(type(computation), "_decorated_handlers", {}).values():
+            if hasattr(h, "__name__"):
+                names.add(h.__name__)
+        names.update(n for n in dir(type(computation)) if n.startswith("_orchestrator_"))
+        for n in sorted(names):
+            orig = getattr(computation, n, None)
+            if orig is None or not callable(orig) or hasattr(orig, "_pv_wrapped"):
+                continue
+            w = self.wrap(orig, agent, cname, "handler")
+            try:
+                setattr(computation, n, w)
+            except AttributeError:
+                continue
+            for t, h in list(computation._msg_handlers.items()):
+                if getattr(h, "__self__", None) is computation and getattr(h, "__name__", None) == n:
+                    computation._msg_handlers[t] = w
+            self.handlers_wrapped = getattr(self, "handlers_wrapped", 0) + 1
+
     # -- installation (class-level seams; undone by uninstall)
     def install(self, jitter=None):
         from pydcop.infrastructure import agents as agents_mod, discovery as disc_mod
@@ -110,6 +136,7 @@ class CallbackMonitor:
                 mon.comp_agent[id(dc)] = name
                 for meth, kind in (("start", "start"), ("on_message", "message"), ("pause", "pause")):
                     setattr(dc, meth, mon.wrap(getattr(dc, meth), name, dc.name, kind, jitter))
+                mon.wrap_handlers(dc, name, dc.name)
 
         def add_computation(self, computation, comp_name=None, publish=True):
             cname = computation.name if comp_name is None else comp_name
@@ -118,6 +145,7 @@ class CallbackMonitor:
                 mon.comp_agent[id(computation)] = self.name
                 for meth, kind in (("start", "start"), ("on_message", "message"), ("pause", "pause")):
                     setattr(computation, meth, mon.wrap(getattr(computation, meth), self.name, cname, kind, jitter))
+                mon.wrap_handlers(computation, self.name, cname)
             return orig_add(self, computation, comp_name, publish)
 
         def set_periodic_action(self, period, cb):
